@@ -156,6 +156,8 @@ pub fn run(scn: &Scn, ctx: &Ctx, scratch: &Path) {
     // traffic
     let e = scn.e as usize;
     let mut traffic: Vec<Vec<u8>> = Vec::new();
+    // source block number of each datagram (kinds built from a sender trace), for the block-count rule
+    let mut sbns: Vec<u32> = Vec::new();
     let mut block_bytes = scn.b as usize * e;
     let mut pkt_len = e + 48;
     match scn.kind {
@@ -190,6 +192,7 @@ pub fn run(scn: &Scn, ctx: &Ctx, scratch: &Path) {
                 };
                 if keep && !p.dec.close_object {
                     traffic.push(p.bytes.clone());
+                    sbns.push(p.dec.sbn);
                     pkt_len = pkt_len.max(p.bytes.len());
                 }
             }
@@ -284,8 +287,56 @@ pub fn run(scn: &Scn, ctx: &Ctx, scratch: &Path) {
     let mut max_objs = 0usize;
     let mut abandoned = false;
     let mut sessions_seen = std::collections::BTreeSet::new();
+    // exact accounting on the traffic itself (independent of the allocator measurement): datagram bytes and
+    // distinct source blocks handed to the receiver for the stalled object BEFORE the push after which it is
+    // found abandoned
+    let mut pushed_bytes = 0usize;
+    let mut blocks_touched: std::collections::BTreeSet<u32> = Default::default();
+    let mut precise_reported = false;
+    let err_before = 0usize;
     for (i, b) in traffic.iter().enumerate() {
         t += 50;
+        if !abandoned && !precise_reported {
+            match scn.kind {
+                Kind::NoFdtCached | Kind::NoFdtCachedTinyPayload => {
+                    // flute refuses a packet once the cached datagrams have reached the limit
+                    if pushed_bytes > scn.cache + 2 * pkt_len && i > 2 {
+                        precise_reported = true;
+                        violate(
+                            ctx,
+                            "C17/stalled-object-exceeds-cache",
+                            "packet-cache-exact",
+                            format!(
+                                "{} bytes of datagrams ({} packets) of one object without FDT have been accepted and the object is still held: object_max_cache_size={} (+ one datagram of {} bytes)",
+                                pushed_bytes, i, scn.cache, pkt_len
+                            ),
+                        );
+                    }
+                }
+                Kind::NoFdtInband | Kind::MissingSymbol => {
+                    // a new block is refused once two blocks are allocated and the total would exceed the limit
+                    let allowed = (scn.cache / block_bytes.max(1)).max(2) + 1;
+                    if blocks_touched.len() > allowed + 1 {
+                        precise_reported = true;
+                        violate(
+                            ctx,
+                            "C17/stalled-object-exceeds-cache",
+                            "blocks-exact",
+                            format!(
+                                "packets of {} distinct source blocks ({} bytes each) of one stalled object have been accepted and the object is still held: object_max_cache_size={} allows {} blocks",
+                                blocks_touched.len(), block_bytes, scn.cache, allowed
+                            ),
+                        );
+                    }
+                }
+                _ => {}
+            }
+            pushed_bytes += b.len();
+            if let Some(s) = sbns.get(i) {
+                blocks_touched.insert(*s);
+            }
+        }
+        let _ = err_before;
         rr.push(&ep, b, t);
         let cleanup_every = if scn.kind == Kind::ExpiredFdtInstances { 1 } else { scn.cleanup_every };
         if cleanup_every > 0 && (i as u32 + 1) % cleanup_every == 0 {
